@@ -9,7 +9,7 @@ from ..ref import ws as refws
 
 LEVEL = 'exploration'
 TECHNIQUE = 'online trace monitor (event-grammar automaton + bounded-termination rule) over bounded-exhaustive histories on a virtual clock'
-BUDGET_S = {'quick': 35, 'thorough': 280}
+BUDGET_S = {'quick': 50, 'thorough': 280}
 REQUIRED = {'all': ['oracle.grammar_checked', 'oracle.terminated_runs', 'oracle.connect_phase_runs', 'oracle.reconnect_runs']}
 RULE = ('bounded-exhaustive histories: handshake variant x every sequence of <= D server steps from an 18-step '
         'alphabet (data/control/invalid frames, close variants, half frame, silence, EOF, ECONNRESET) x 16 '
